@@ -51,8 +51,9 @@ type regionRec struct {
 type unitFacts struct {
 	leaves    map[leaf]bool
 	callees   map[*unit]bool
-	recovers  bool // the body registers a deferred recover()
-	recovered bool // a panic raised in the body is recovered inside the analysed code
+	acq       map[string]bool // locks (display names) the function may acquire, itself or through static callees
+	recovers  bool            // the body registers a deferred recover()
+	recovered bool            // a panic raised in the body is recovered inside the analysed code
 }
 
 func typeShort(t types.Type) string {
@@ -207,14 +208,22 @@ func (a *analysis) srcOf(n ast.Node) string {
 func (a *analysis) computeFacts() {
 	a.facts = map[*unit]*unitFacts{}
 	for _, u := range a.order {
-		uf := &unitFacts{leaves: map[leaf]bool{}, callees: map[*unit]bool{}}
+		uf := &unitFacts{leaves: map[leaf]bool{}, callees: map[*unit]bool{}, acq: map[string]bool{}}
 		a.facts[u] = uf
 		uf.recovers = a.registersRecover(u.pkg, u.decl.Body)
+		lf := &fa{a: a, u: u, p: u.pkg}
 		ast.Inspect(u.decl.Body, func(n ast.Node) bool {
 			switch x := n.(type) {
 			case *ast.GoStmt:
 				return false // runs on another goroutine: its panic does not unwind this one
 			case *ast.CallExpr:
+				if sel, ok := unparen(x.Fun).(*ast.SelectorExpr); ok && (sel.Sel.Name == "Lock" || sel.Sel.Name == "RLock") {
+					if k := syncKind(u.pkg.info.TypeOf(sel.X)); k == "mutex" || k == "rwmutex" {
+						if key := lf.lockKey(sel.X); key != "" {
+							uf.acq[lockDisp(key)] = true
+						}
+					}
+				}
 				cl, name, cu := a.classifyCall(u.pkg, x, a.srcOf)
 				if cu != nil {
 					uf.callees[cu] = true
@@ -233,6 +242,12 @@ func (a *analysis) computeFacts() {
 				for l := range a.facts[cu].leaves {
 					if !uf.leaves[l] {
 						uf.leaves[l] = true
+						ch = true
+					}
+				}
+				for l := range a.facts[cu].acq {
+					if !uf.acq[l] {
+						uf.acq[l] = true
 						ch = true
 					}
 				}
@@ -407,4 +422,28 @@ func (a *analysis) regionRows() []regionRec {
 		return x.callee < y.callee
 	})
 	return rows
+}
+
+// orderEdges: a static call made while locks are (possibly) held orders them before every lock the
+// callee may acquire, itself or through its static callees.  The per-function entry locksets are
+// intersections over the call sites (right for "certainly held", wrong for lock ORDER: one caller
+// that holds a lock is enough for a deadlock), so the edges are taken at the call sites.
+func (f *fa) orderEdges(u *unit, held lset, line int) {
+	if len(f.inl) > 0 || f.a.facts[u] == nil {
+		return
+	}
+	hs := map[string]bool{}
+	for k := range held.m {
+		hs[lockDisp(k)] = true
+	}
+	for k := range held.may {
+		hs[lockDisp(k)] = true
+	}
+	for h := range hs {
+		for l := range f.a.facts[u].acq {
+			if _, ok := f.a.edges[[2]string{h, l}]; !ok {
+				f.a.edges[[2]string{h, l}] = line
+			}
+		}
+	}
 }
